@@ -39,7 +39,7 @@ Proof.
       destruct a as [|r0|v| |]; cbn in Hh; try discriminate.
       + inversion Hh; subst. cbn. rewrite Nat.eqb_refl. reflexivity.
       + destruct (_ =? _); inversion Hh; subst. reflexivity.
-    - (* T_order *) intros s is s1 t E [HQ He]. split; [eapply M14; eauto|exact He].
+    - (* T_order *) intros s is s1 t _ E [HQ He]. split; [eapply M14; eauto|exact He].
     - intros s t [HQ He]. cbn. split; [exact HQ|]. rewrite efold_app, He. reflexivity.
     - intros s t o [HQ He] E. split; [exact HQ|]. rewrite efold_app, He. unfold m_pre_exit in E. destruct (m_n s =? 0); inversion E; subst. reflexivity.
     - intros s t _ _ [HQ He]. split; [exact HQ|]. rewrite efold_app, He. reflexivity.
